@@ -367,6 +367,12 @@ def gen_cases(tier, seed):
                                   'size': rng.choice([190, 100, 255]) * 1024 + rng.choice([0, 77]), 'count': rng.choice([24, 40]), 'max': 1024 * 1024.0})
                     cases.append({'family': 'e2e', 'seed': rng.randrange(1 << 30), 'kind': kind, 'end': end, 'multi': True, 'conc': rng.choice([1, 2]), 'io': io,
                                   'part': rng.choice([100, 200]) * 1024, 'size': 4 * 1024 * 1024 + 4242, 'max': 1024 * 1024.0})
+    # a client with a history: a legacy S3Transfer or an earlier manager (boto3 builds one per call) was used on it before
+    r3 = random.Random(seed + 5)
+    for c in cases:
+        if c.get('family') == 'e2e' and r3.random() < 0.35:
+            c['prior_use'] = r3.choice(['legacy', 'manager'])
+
     return cases
 
 
@@ -409,6 +415,8 @@ def run_e2e(case):
         spec = {'seed': case['seed'], 'config': cfg, 'transfers': [_copy.deepcopy(t) for _ in range(count)], 'body_read_sizes': [16384], 'min_part': part}
         if case.get('client'):
             spec['client'] = case['client']
+        if case.get('prior_use'):
+            spec['prior_use'] = case['prior_use']
         burst = (2 * conc + 1) * 256 * 1024
         size = size * count
 
